@@ -275,7 +275,7 @@ impl PayloadHistory {
 
     /// Pushes a new delta to the history
     fn push_delta(&mut self, delta: PayloadDelta) {
-        if self.deltas.len() == self.keep {
+        if self.deltas.len() >= self.keep {
             let _ = self.deltas.pop_back();
         }
         self.deltas.push_front(Arc::new(delta))
